@@ -814,18 +814,122 @@ type FuzzItem struct {
 	Seed uint64 `json:"seed"`
 	Pos  int    `json:"pos"`
 	Loc  string `json:"local"`
+	// Struct >= 0: instead of random bytes, the Struct-th structural variant of the JSON document (every node replaced by
+	// null, a number, a string, a boolean, an empty / one-null list, an empty object, or removed, and every list element
+	// doubled); the worker answers "skip" when there are fewer variants
+	Struct int `json:"struct"`
+}
+
+// structVariant returns the k-th structural variant of a JSON document, or nil when there are not that many.
+func structVariant(doc []byte, k int) []byte {
+	var root interface{}
+	dec := json.NewDecoder(strings.NewReader(string(doc)))
+	dec.UseNumber()
+	if dec.Decode(&root) != nil {
+		return nil
+	}
+	repl := []interface{}{nil, json.Number("0"), json.Number("-1"), "", "x", true, []interface{}{}, []interface{}{nil}, map[string]interface{}{}}
+	n := 0
+	var res []byte
+	emit := func() bool { // called with the document modified in place
+		if n == k {
+			res, _ = json.Marshal(root)
+		}
+		n++
+		return res != nil
+	}
+	var walk func(get func() interface{}, set func(interface{}), del func()) bool
+	walk = func(get func() interface{}, set func(interface{}), del func()) bool {
+		orig := get()
+		for _, r := range repl {
+			set(r)
+			done := emit()
+			set(orig)
+			if done {
+				return true
+			}
+		}
+		if del != nil {
+			del()
+			done := emit()
+			set(orig)
+			if done {
+				return true
+			}
+		}
+		switch v := orig.(type) {
+		case map[string]interface{}:
+			keys := make([]string, 0, len(v))
+			for key := range v {
+				keys = append(keys, key)
+			}
+			sort.Strings(keys)
+			for _, key := range keys {
+				key := key
+				if walk(func() interface{} { return v[key] }, func(x interface{}) { v[key] = x }, func() { delete(v, key) }) {
+					return true
+				}
+			}
+		case []interface{}:
+			for i := range v {
+				i := i
+				if walk(func() interface{} { return v[i] }, func(x interface{}) { v[i] = x }, nil) {
+					return true
+				}
+				// the element twice
+				dup := append(append(append([]interface{}{}, v[:i+1]...), v[i]), v[i+1:]...)
+				set(dup)
+				done := emit()
+				set(orig)
+				if done {
+					return true
+				}
+			}
+		}
+		return false
+	}
+	walk(func() interface{} { return root }, func(x interface{}) { root = x }, nil)
+	return res
 }
 
 func fuzzOne(it FuzzItem) Outcome {
 	r := &xorshift{s: it.Seed*2685821657736338717 + 1}
+	skip := false
+	var o Outcome
 	if it.Kind == "bug" {
-		return bugCaseWith(Case{Kind: "bug", M: "none", Pos: "head", Local: it.Loc}, func(chain []*packSpec) {
+		o = bugCaseWith(Case{Kind: "bug", M: "none", Pos: "head", Local: it.Loc}, func(chain []*packSpec) {
+			if it.Struct >= 0 {
+				if v := structVariant(chain[it.Pos].blob(), it.Struct); v != nil {
+					chain[it.Pos].rawBlob = v
+				} else {
+					skip = true
+				}
+				return
+			}
 			chain[it.Pos].rawBlob = fuzzBytes(r, chain[it.Pos].blob())
 		})
+	} else {
+		o = identityCaseWith(Case{Kind: "identity", M: "none", Pos: "head", Local: it.Loc}, func(chain []*verSpec) {
+			if it.Struct >= 0 {
+				v := chain[it.Pos%2]
+				if _, ok := v.fields["pub_keys"]; !ok {
+					v.fields["pub_keys"] = []interface{}{}
+					v.fields["metadata"] = map[string]string{"k": "v"}
+				}
+				if b := structVariant(v.blob(), it.Struct); b != nil {
+					v.raw = b
+				} else {
+					skip = true
+				}
+				return
+			}
+			chain[it.Pos%2].raw = fuzzBytes(r, chain[it.Pos%2].blob())
+		})
 	}
-	return identityCaseWith(Case{Kind: "identity", M: "none", Pos: "head", Local: it.Loc}, func(chain []*verSpec) {
-		chain[it.Pos%2].raw = fuzzBytes(r, chain[it.Pos%2].blob())
-	})
+	if skip {
+		o.Reason = "skip"
+	}
+	return o
 }
 
 func FuzzWorker(args []string) {
@@ -836,7 +940,7 @@ func FuzzWorker(args []string) {
 	})
 }
 
-// FuzzCmd: vh hostile-fuzz <out> <count>
+// FuzzCmd: vh hostile-fuzz <out> <count of byte-level items> [<upper bound on structural variants per document>]
 func FuzzCmd(args []string) {
 	out := hx.NewWriter(args[0])
 	defer out.Close()
@@ -845,10 +949,38 @@ func FuzzCmd(args []string) {
 	var items []json.RawMessage
 	var its []FuzzItem
 	for i := 0; i < count; i++ {
-		it := FuzzItem{Kind: []string{"bug", "identity"}[i%2], Seed: uint64(hx.Seed())*1000003 + uint64(i), Pos: i % 3, Loc: []string{"absent", "behind", "equal", "diverged"}[(i/2)%4]}
+		it := FuzzItem{Kind: []string{"bug", "identity"}[i%2], Seed: uint64(hx.Seed())*1000003 + uint64(i), Pos: i % 3, Loc: []string{"absent", "behind", "equal", "diverged"}[(i/2)%4], Struct: -1}
 		b, _ := json.Marshal(it)
 		items = append(items, b)
 		its = append(its, it)
+	}
+	// every structural variant of the JSON documents; quick: at the head, two local situations in turn; thorough: everywhere
+	nstruct := 0
+	if len(args) > 2 {
+		fmt.Sscan(args[2], &nstruct)
+	}
+	thorough := os.Getenv("VERIF_TIER") == "thorough"
+	for _, kind := range []string{"bug", "identity"} {
+		for k := 0; k < nstruct; k++ {
+			poss, locs := []int{2}, []string{[]string{"absent", "behind"}[k%2]}
+			if kind == "identity" {
+				poss = []int{1}
+			}
+			if thorough {
+				poss, locs = []int{0, 1, 2}, []string{"absent", "behind", "equal", "diverged"}
+				if kind == "identity" {
+					poss = []int{0, 1}
+				}
+			}
+			for _, pos := range poss {
+				for _, loc := range locs {
+					it := FuzzItem{Kind: kind, Pos: pos, Loc: loc, Struct: k}
+					b, _ := json.Marshal(it)
+					items = append(items, b)
+					its = append(its, it)
+				}
+			}
+		}
 	}
 	res := hx.Isolated("hostile-fuzz-worker", items, 0)
 	for i, r := range res {
@@ -862,6 +994,9 @@ func FuzzCmd(args []string) {
 				o.Crashed = true
 				o.Reason = o.LocalRead + " " + o.CacheBuild
 			}
+		}
+		if o.Reason == "skip" {
+			continue
 		}
 		out.Put(map[string]interface{}{"item": its[i], "o": o})
 	}
